@@ -4,6 +4,7 @@ package config
 
 import (
 	"errors"
+	"os"
 	"regexp"
 	"sync/atomic"
 
@@ -467,4 +468,124 @@ func VerifC04_RegexValidation() {
 		rt.Assert(o.activeValue != nil && o.activeValue != prev, "regex/valid-installs-new-value")
 		rt.Reach("regex-accepted")
 	}
+}
+
+// ---- O7: saving the configuration and loading it again restores exactly the
+// same user-set values ----
+
+// the configuration file and the JSON codec as the harness models them under
+// the engine (natively: a real file in the sandbox and encoding/json)
+var (
+	c04File    []byte
+	c04FileSet bool
+	c04Encoded interface{}
+)
+
+// VerifModel_os_WriteFile / ReadFile: one file, contents kept.
+func VerifModel_os_WriteFile(name string, data []byte, perm os.FileMode) error {
+	c04File, c04FileSet = data, true
+	return nil
+}
+
+func VerifModel_os_ReadFile(name string) ([]byte, error) {
+	if !c04FileSet {
+		return nil, errors.New("file does not exist")
+	}
+	return c04File, nil
+}
+
+// VerifModel_json_MarshalIndent keeps the value; Unmarshal hands back a copy
+// with JSON's typing: integers become float64, string lists []interface{}.
+func VerifModel_json_MarshalIndent(v interface{}, prefix, indent string) ([]byte, error) {
+	c04Encoded = v
+	return []byte("{}"), nil
+}
+
+func c04JSONCopy(v interface{}) interface{} {
+	switch x := v.(type) {
+	case map[string]interface{}:
+		out := make(map[string]interface{}, len(x))
+		for k, e := range x {
+			out[k] = c04JSONCopy(e)
+		}
+		return out
+	case int64:
+		return float64(x)
+	case []string:
+		out := make([]interface{}, len(x))
+		for i, e := range x {
+			out[i] = e
+		}
+		return out
+	}
+	return v
+}
+
+func VerifModel_json_Unmarshal(data []byte, v interface{}) error {
+	target, ok := v.(*map[string]interface{})
+	if !ok {
+		return errors.New("unsupported target")
+	}
+	m, _ := c04JSONCopy(c04Encoded).(map[string]interface{})
+	*target = m
+	return nil
+}
+
+func VerifC04_SaveLoad() {
+	c04Reset()
+	c04File, c04FileSet, c04Encoded = nil, false, nil
+	configFilePath = rt.Root("/cfg") + "/config.json"
+	// options of three release levels and all four types, some with user values
+	type optSpec struct {
+		key   string
+		t     OptionType
+		level ReleaseLevel
+		val   *valueCache
+	}
+	specs := []optSpec{
+		{"a/int", OptTypeInt, ReleaseLevelStable, &valueCache{intVal: 42}},
+		{"a/str", OptTypeString, ReleaseLevelBeta, &valueCache{stringVal: "user"}},
+		{"b/list", OptTypeStringArray, ReleaseLevelExperimental, &valueCache{stringArrayVal: []string{"x", "y"}}},
+		{"flag", OptTypeBool, ReleaseLevelStable, &valueCache{boolVal: true}},
+	}
+	var opts []*Option
+	set := make([]bool, len(specs))
+	for i, sp := range specs {
+		o := addOption(sp.key, sp.t, sp.level, &valueCache{stringVal: "fallback"})
+		set[i] = rt.Bool("set" + string(rune('0'+i)))
+		if set[i] {
+			o.activeValue = sp.val
+		}
+		opts = append(opts, o)
+	}
+	// the effective release level is anything
+	atomic.StoreInt32(releaseLevel, int32(rt.Choice("level", 3)))
+	rt.Assert(SaveConfig() == nil, "saveload/save-ok")
+	// the in-memory user layer is lost (restart), then loaded again
+	for _, o := range opts {
+		o.activeValue = nil
+	}
+	rt.Assert(loadConfig(false) == nil, "saveload/load-ok")
+	for i, o := range opts {
+		if !set[i] {
+			rt.Assert(o.activeValue == nil, "saveload/unset-option-stays-unset")
+			continue
+		}
+		rt.Assert(o.activeValue != nil, "saveload/user-value-restored")
+		if o.activeValue == nil {
+			continue
+		}
+		switch o.OptType {
+		case OptTypeInt:
+			rt.Assert(o.activeValue.intVal == 42, "saveload/int-value")
+		case OptTypeString:
+			rt.Assert(o.activeValue.stringVal == "user", "saveload/string-value")
+		case OptTypeBool:
+			rt.Assert(o.activeValue.boolVal, "saveload/bool-value")
+		case OptTypeStringArray:
+			v := o.activeValue.stringArrayVal
+			rt.Assert(len(v) == 2 && v[0] == "x" && v[1] == "y", "saveload/list-value")
+		}
+	}
+	rt.Reach("saveload-end")
 }
